@@ -1,17 +1,47 @@
 package vx
 
+import (
+	"encoding/json"
+	"os"
+	"strings"
+)
+
 // Native replay state. Filled by LoadModel (replay tests); with no model loaded
 // every input is zero and every decision takes alternative 0.
 
-type Model struct {
-	Ints      map[string][]uint64 // name -> values in call order
-	Bools     map[string][]bool
-	Bytes     map[string][][]byte
-	Strings   map[string][]string
-	Decisions []int // decision vector in order (all kinds)
-	Clock     [][2]int64
-	Params    map[string]int
+type ChoiceRec struct {
+	Kind   string
+	Chosen int
 }
+
+type Model struct {
+	Ints    map[string][]int64 // name -> values in call order
+	Bools   map[string][]bool
+	Bytes   map[string][][]byte
+	Strings map[string][]string
+	Choices []ChoiceRec // harness-visible decisions in order
+	Clock   [][2]int64
+	Params  map[string]int
+}
+
+// LoadModelFile reads a Model (JSON) written by `gosx replay`.
+func LoadModelFile(path string) error {
+	b, err := os.ReadFile(path)
+	if err != nil {
+		return err
+	}
+	m := &Model{}
+	if err := json.Unmarshal(b, m); err != nil {
+		return err
+	}
+	LoadModel(m)
+	return nil
+}
+
+func ModelLoaded() bool { return model != nil }
+
+// Desync lists decisions whose kind did not match the recorded one.
+var Desync []string
 
 var (
 	model        *Model
@@ -41,7 +71,7 @@ func nextInt(name string, w int) uint64 {
 	k := cursor["i:"+name]
 	cursor["i:"+name] = k + 1
 	if vs := model.Ints[name]; k < len(vs) {
-		return vs[k]
+		return uint64(vs[k])
 	}
 	return 0
 }
@@ -84,15 +114,29 @@ func nextString(name string) string {
 }
 
 func nextDecision(kind string, n int) int {
-	if model == nil || decPos >= len(model.Decisions) {
+	if model == nil || n <= 1 {
 		return 0
 	}
-	d := model.Decisions[decPos]
+	for decPos < len(model.Choices) && (strings.HasPrefix(model.Choices[decPos].Kind, "sched:") || model.Choices[decPos].Kind == "maporder" || model.Choices[decPos].Kind == "select") {
+		decPos++
+	}
+	if decPos >= len(model.Choices) {
+		// faults beyond the recorded vector did not happen
+		return 0
+	}
+	c := model.Choices[decPos]
+	if strings.HasPrefix(kind, "fault:") && c.Kind != kind {
+		// the symbolic run asked no fault question here (budget exhausted): no fault
+		return 0
+	}
 	decPos++
-	if d >= n {
+	if c.Kind != kind {
+		Desync = append(Desync, kind+"!="+c.Kind)
+	}
+	if c.Chosen >= n {
 		return 0
 	}
-	return d
+	return c.Chosen
 }
 
 func param(name string) int {
